@@ -323,6 +323,176 @@ func structTags(p *pkgInfo, typeName string) [][2]string {
 	return out
 }
 
+// ---- statement skeletons: a normalised, line-per-statement rendering of a function body ----
+// log.* statements and comments are dropped, whitespace is collapsed, function literals are
+// rendered as nested blocks.  Any change to control flow, conditions, channel operations or calls
+// changes the skeleton; formatting, comments and log lines do not.
+
+var wsRe = strings.NewReplacer("\n", " ", "\t", " ")
+
+func oneLine(s string) string {
+	s = wsRe.Replace(s)
+	for strings.Contains(s, "  ") {
+		s = strings.ReplaceAll(s, "  ", " ")
+	}
+	return strings.TrimSpace(s)
+}
+
+func isLogCall(e ast.Expr) bool {
+	c, ok := e.(*ast.CallExpr)
+	if !ok {
+		return false
+	}
+	n := callName(c)
+	return strings.HasPrefix(n, "log.") || strings.HasPrefix(n, "stats.Record")
+}
+
+// exprLine renders an expression with function literals replaced by "func{…}" and returns them.
+func (p *pkgInfo) exprLine(n ast.Node) (string, []*ast.FuncLit) {
+	var lits []*ast.FuncLit
+	ast.Inspect(n, func(m ast.Node) bool {
+		if fl, ok := m.(*ast.FuncLit); ok {
+			lits = append(lits, fl)
+			return false
+		}
+		return true
+	})
+	src := p.src(n)
+	for _, fl := range lits {
+		src = strings.Replace(src, p.src(fl), "func{…}", 1)
+	}
+	return oneLine(src), lits
+}
+
+func (p *pkgInfo) skel(stmts []ast.Stmt, depth int, out *[]string) {
+	ind := strings.Repeat("  ", depth)
+	emit := func(s string) { *out = append(*out, ind+s) }
+	simple := func(n ast.Node, prefix string) {
+		line, lits := p.exprLine(n)
+		emit(prefix + line)
+		for _, fl := range lits {
+			p.skel(fl.Body.List, depth+1, out)
+		}
+	}
+	for _, st := range stmts {
+		switch x := st.(type) {
+		case *ast.ExprStmt:
+			if isLogCall(x.X) {
+				continue
+			}
+			simple(x, "")
+		case *ast.IfStmt:
+			hdr := "if "
+			if x.Init != nil {
+				l, _ := p.exprLine(x.Init)
+				hdr += l + "; "
+			}
+			c, _ := p.exprLine(x.Cond)
+			emit(hdr + c)
+			p.skel(x.Body.List, depth+1, out)
+			for el := x.Else; el != nil; {
+				switch e := el.(type) {
+				case *ast.BlockStmt:
+					emit("else")
+					p.skel(e.List, depth+1, out)
+					el = nil
+				case *ast.IfStmt:
+					c, _ := p.exprLine(e.Cond)
+					emit("else if " + c)
+					p.skel(e.Body.List, depth+1, out)
+					el = e.Else
+				default:
+					el = nil
+				}
+			}
+		case *ast.ForStmt:
+			hdr := "for"
+			if x.Cond != nil {
+				c, _ := p.exprLine(x.Cond)
+				hdr += " " + c
+			}
+			emit(hdr)
+			p.skel(x.Body.List, depth+1, out)
+		case *ast.RangeStmt:
+			c, _ := p.exprLine(x.X)
+			emit("range " + c)
+			p.skel(x.Body.List, depth+1, out)
+		case *ast.SelectStmt:
+			emit("select")
+			for _, cc := range x.Body.List {
+				cl := cc.(*ast.CommClause)
+				if cl.Comm == nil {
+					emit("  default")
+				} else {
+					c, _ := p.exprLine(cl.Comm)
+					emit("  case " + c)
+				}
+				p.skel(cl.Body, depth+2, out)
+			}
+		case *ast.SwitchStmt:
+			hdr := "switch"
+			if x.Tag != nil {
+				c, _ := p.exprLine(x.Tag)
+				hdr += " " + c
+			}
+			emit(hdr)
+			for _, cc := range x.Body.List {
+				cl := cc.(*ast.CaseClause)
+				if cl.List == nil {
+					emit("  default")
+				} else {
+					var es []string
+					for _, e := range cl.List {
+						c, _ := p.exprLine(e)
+						es = append(es, c)
+					}
+					emit("  case " + strings.Join(es, ", "))
+				}
+				p.skel(cl.Body, depth+2, out)
+			}
+		case *ast.TypeSwitchStmt:
+			c, _ := p.exprLine(x.Assign)
+			emit("typeswitch " + c)
+			for _, cc := range x.Body.List {
+				cl := cc.(*ast.CaseClause)
+				if cl.List == nil {
+					emit("  default")
+				} else {
+					var es []string
+					for _, e := range cl.List {
+						c, _ := p.exprLine(e)
+						es = append(es, c)
+					}
+					emit("  case " + strings.Join(es, ", "))
+				}
+				p.skel(cl.Body, depth+2, out)
+			}
+		case *ast.BlockStmt:
+			p.skel(x.List, depth, out)
+		case *ast.LabeledStmt:
+			emit(x.Label.Name + ":")
+			p.skel([]ast.Stmt{x.Stmt}, depth, out)
+		case *ast.DeclStmt:
+			simple(x, "")
+		default: // assign, incdec, send, return, go, defer, branch
+			simple(st, "")
+		}
+	}
+}
+
+func (f *facts) defSkeleton(p *pkgInfo, name, recv, fn string) {
+	var lines []string
+	if fd := p.funcDecl(recv, fn); fd != nil && fd.Body != nil {
+		p.skel(fd.Body.List, 0, &lines)
+	}
+	f.js[name] = lines
+	q := make([]string, len(lines))
+	for i, v := range lines {
+		q[i] = "  " + leanStr(v)
+	}
+	fmt.Fprintf(&f.lean, "def %s : List String := [\n%s]\n", name, strings.Join(q, ",\n"))
+}
+
 func main() {
 	repo := flag.String("repo", "/repo", "repository root")
 	leanOut := flag.String("lean", "", "Facts.lean to write")
@@ -731,6 +901,45 @@ func main() {
 		}
 		f.defStrList("formatterReturns", rets)
 		f.defStr("formatterLowerExpr", lower, lower != "")
+	}
+
+	// 11. skeletons of the functions whose control flow the concurrent models transcribe
+	f.comment("statement skeletons (normalised control flow) of modelled functions")
+	for _, sk := range []struct{ name, recv, fn string }{
+		{"skel_backoff_next", "backoff", "next"},
+		{"skel_tryReconnect", "wsConn", "tryReconnect"},
+		{"skel_closeInFlight", "wsConn", "closeInFlight"},
+		{"skel_closeChans", "wsConn", "closeChans"},
+		{"skel_handleResponse", "wsConn", "handleResponse"},
+		{"skel_cancelCtx", "wsConn", "cancelCtx"},
+		{"skel_handleChanMessage", "wsConn", "handleChanMessage"},
+		{"skel_handleChanClose", "wsConn", "handleChanClose"},
+		{"skel_handleCall", "wsConn", "handleCall"},
+		{"skel_nextMessage", "wsConn", "nextMessage"},
+		{"skel_nextWriter", "wsConn", "nextWriter"},
+		{"skel_sendRequest", "wsConn", "sendRequest"},
+		{"skel_readFrame", "wsConn", "readFrame"},
+		{"skel_frameExecutor", "wsConn", "frameExecutor"},
+		{"skel_handleWsConn", "wsConn", "handleWsConn"},
+		{"skel_handleOutChans", "wsConn", "handleOutChans"},
+		{"skel_handleChanOut", "wsConn", "handleChanOut"},
+		{"skel_handleCtxAsync", "wsConn", "handleCtxAsync"},
+		{"skel_setupPings", "wsConn", "setupPings"},
+		{"skel_resetReadDeadline", "wsConn", "resetReadDeadline"},
+		{"skel_setupRequestChan", "client", "setupRequestChan"},
+		{"skel_makeOutChan", "client", "makeOutChan"},
+		{"skel_handleRpcCall", "rpcFunc", "handleRpcCall"},
+		{"skel_processResponse", "rpcFunc", "processResponse"},
+		{"skel_processError", "rpcFunc", "processError"},
+		{"skel_withLazyWriter", "", "withLazyWriter"},
+		{"skel_lazyWriter_Write", "lazyWriter", "Write"},
+		{"skel_createError", "handler", "createError"},
+		{"skel_errorVal", "JSONRPCError", "val"},
+		{"skel_processFuncOut", "", "processFuncOut"},
+		{"skel_handleReader", "handler", "handleReader"},
+		{"skel_rpcError", "", "rpcError"},
+	} {
+		f.defSkeleton(p, sk.name, sk.recv, sk.fn)
 	}
 
 	f.lean.WriteString("\nend Jrpc.Generated\n")
